@@ -148,6 +148,7 @@ impl OperationControl for Repeat {
             Box::new(ForceProgressIterator::new(Box::new(
                 GreedyRepeatIterator::new(
                     matcher,
+                    position,
                     self.operation.as_ref(),
                     iterators,
                     positions,
@@ -204,11 +205,24 @@ struct GreedyRepeatIterator<'a> {
     states: Vec<Snapshot>,
     capturing: bool,
     bound: usize,
+    // where the repetition started
+    start: usize,
 }
 
 impl<'a> GreedyRepeatIterator<'a> {
+    // Enough iterations? An iteration that consumed nothing can be repeated
+    // as often as the minimum requires.
+    fn complete(&self) -> bool {
+        let n = self.positions.len();
+        self.iterators.len() >= self.min
+            || (n >= 2 && self.positions[n - 1] == self.positions[n - 2])
+            || (n == 1 && self.positions[0] == self.start)
+    }
+
+    #[allow(clippy::too_many_arguments)]
     fn new(
         matcher: &'a ReMatcher<'a>,
+        start: usize,
         operation: &'a Operation,
         iterators: Vec<Box<dyn Iterator<Item = usize> + 'a>>,
         positions: Vec<usize>,
@@ -227,6 +241,7 @@ impl<'a> GreedyRepeatIterator<'a> {
             states,
             capturing,
             bound,
+            start,
         }
     }
 }
@@ -235,7 +250,7 @@ impl Iterator for GreedyRepeatIterator<'_> {
     type Item = usize;
 
     fn next(&mut self) -> Option<Self::Item> {
-        let has_next = if self.primed && self.iterators.len() >= self.min {
+        let has_next = if self.primed && self.complete() {
             !self.iterators.is_empty()
         } else if self.iterators.is_empty() {
             false
@@ -269,7 +284,7 @@ impl Iterator for GreedyRepeatIterator<'_> {
                         self.states.pop();
                     }
                 }
-                if self.iterators.len() >= self.min || self.iterators.is_empty() {
+                if self.complete() || self.iterators.is_empty() {
                     break;
                 }
             }
